@@ -141,7 +141,7 @@ def configs(ck):
         cfgs = [mk(1, "wall-above"), mk(1, "down-leg"), mk(2, "overshoot")]
     else:
         for kind in ("patch", "wall-below", "wall-above", "down-leg", "downward", "overshoot"):
-            cfgs += [mk(1, kind), mk(1, kind), mk(2, kind), mk(2, kind, pt="pol" if kind != "downward" else "unpol")]
+            cfgs += [mk(1, kind), mk(2, kind), mk(2, kind, pt="pol" if kind != "downward" else "unpol")]
         cfgs += [mk(3, "wall-above"), mk(3, "patch"), mk(2, "down-leg", pt="tl"), mk(1, "wall-below", pt="tl")]
     return cfgs
 
